@@ -1,8 +1,344 @@
-import FeatherModel.Model.Tiny
+import FeatherModel.Lemmas.TinyEscape
+import FeatherModel.Lemmas.TinyDup
+
+/-!
+# C03 — Tiny v2 files round-trip and are written canonically
+
+Model: `FeatherModel/Model/Tiny.lean` (`Tiny.write`, `Tiny.write?`, `Tiny.read n` for `quill::tiny_v2::{write_vec, read::<N>}`,
+`quill/src/lines.rs`, `add_child`). Mapping sets are association lists in `IndexMap` order; `n` (the const generic `N`)
+is a value, so every theorem below is for **every** number of namespaces (`2 ≤ n` is part of the domain), not only 2..4.
+
+* round trip: `read_write`, `read_write_content`, `read_write_canonical`, `write_succeeds` on the decidable domain
+  `Tiny.writable n m`; the witnesses of section 5 show that each condition of the domain is needed;
+* order independence: `write_perm`, `write_perm_dec`, `write_perm_classes`, `write_canon`, `sort_key_separates_*`;
+* fixed point: `write_fixed_point` (on the wider domain `Tiny.writableE`: comments may contain backslash-`n`),
+  `read_write_escaped`;
+* reading never merges, loses or re-parents: `step_appends`, `read_counts`, `read_wf`, `read_closed_classes_final`,
+  `read_dup_class / _field / _method / _param`, `read_dup`, `read_error_propagates`.
+-/
 
 namespace Thm.C03
 open Tiny
 
-theorem stub : escape [] = [] := rfl
+/-! ## 0. non-vacuity: concrete members of the domains -/
+
+/-- two namespaces; a nested class name, a non-BMP name (U+1F600), absent names, multi-line comments, a parameter without
+source name; classes and parameters inserted in non-canonical order -/
+def exM : Mappings :=
+  { ns := [[97], [98]], doc := none,
+    classes := [
+      ([112, 47, 65, 36, 66],
+        { names := [some [112, 47, 65, 36, 66], some [128512]], doc := some [120, 10, 121],
+          fields := [(([102], [73]), { desc := [73], names := [some [102], none], doc := none })],
+          methods := [(([109], [40, 41, 86]),
+            { desc := [40, 41, 86], names := [some [109], some [110]], doc := some [100],
+              params := [(1, { index := 1, names := [none, some [122]], doc := some [112, 10, 113] }),
+                         (0, { index := 0, names := [none, none], doc := none })] })] }),
+      ([65], { names := [some [65], none], doc := none, fields := [], methods := [] })] }
+
+/-- the same content, other insertion order at two levels -/
+def exM' : Mappings :=
+  { exM with classes := [
+      ([65], { names := [some [65], none], doc := none, fields := [], methods := [] }),
+      ([112, 47, 65, 36, 66],
+        { names := [some [112, 47, 65, 36, 66], some [128512]], doc := some [120, 10, 121],
+          fields := [(([102], [73]), { desc := [73], names := [some [102], none], doc := none })],
+          methods := [(([109], [40, 41, 86]),
+            { desc := [40, 41, 86], names := [some [109], some [110]], doc := some [100],
+              params := [(0, { index := 0, names := [none, none], doc := none }),
+                         (1, { index := 1, names := [none, some [122]], doc := some [112, 10, 113] })] })] })] }
+
+def exM3 : Mappings :=
+  { ns := [[97], [98], [99]], doc := none,
+    classes := [([66], { names := [some [66], none, some [67]], doc := none, fields := [], methods := [] }),
+                ([65], { names := [some [65], some [120], none], doc := some [100], fields := [], methods := [] })] }
+
+def exM4 : Mappings :=
+  { ns := [[97], [98], [99], [100]], doc := none,
+    classes := [
+      ([66],
+        { names := [some [66], none, none, some [67]], doc := none, fields := [],
+          methods := [(([60, 105, 110, 105, 116, 62], [40, 41, 86]),
+            { desc := [40, 41, 86], names := [some [60, 105, 110, 105, 116, 62], none, none, none], doc := none,
+              params := [(3, { index := 3, names := [none, none, none, none], doc := none })] })] })] }
+
+/-- a class comment holding the two characters backslash, `n` -/
+def exBsN : Mappings :=
+  { ns := [[97], [98]], doc := none,
+    classes := [([65], { names := [some [65], some [66]], doc := some [120, 92, 110, 121], fields := [], methods := [] })] }
+
+example : writable 2 exM = true := by decide
+example : canon exM ≠ exM := by decide
+example : writable 2 exM' = true ∧ contentEqB exM exM' = true ∧ exM ≠ exM' := by decide
+example : writable 3 exM3 = true ∧ canon exM3 ≠ exM3 := by decide
+example : writable 4 exM4 = true := by decide
+example : writable 2 exBsN = false ∧ writableE 2 exBsN = true := by decide
+/-- the domain is inhabited for every `n ≥ 2` -/
+example (n : Nat) (h : 2 ≤ n) : writable n { ns := List.replicate n [97], doc := none, classes := [] } = true := by
+  simp [writable, wf, keysNodup, h, cellOk, isSurrogate]
+
+/-! ## 1. round trip -/
+
+/-- on the domain `write` returns its text (no panic) -/
+theorem write_succeeds {n : Nat} {m : Mappings} (h : writable n m = true) : write? m = some (write m) := by
+  simp [write?, writable_displayable h]
+
+/-- **`read (write m) = ok (canon m)`**: everything comes back — namespaces, every class / field / method / parameter with
+its names per namespace, descriptor, index and comment — each level in the order `write` emits it. For every `n`. -/
+theorem read_write {n : Nat} {m : Mappings} (h : writable n m = true) : read n (write m) = some (canon m) :=
+  read_write_writable h
+
+/-- `canon` only reorders: same entries under the same keys at every level -/
+theorem canon_content (m : Mappings) : ContentEq m (canon m) := contentEq_canon m
+
+/-- the round trip gives back the same mapping set up to insertion order -/
+theorem read_write_content {n : Nat} {m : Mappings} (h : writable n m = true) :
+    ∃ r, read n (write m) = some r ∧ ContentEq m r :=
+  ⟨canon m, read_write h, contentEq_canon m⟩
+
+/-- sets in canonical order come back exactly -/
+theorem read_write_canonical {n : Nat} {m : Mappings} (h : writable n m = true) :
+    read n (write (canon m)) = some (canon m) := by
+  rw [write_canon]
+  exact read_write h
+
+example : read 2 (write exM) = some (canon exM) := by decide
+
+/-! ## 2. the text depends on the content only -/
+
+/-- **`write` is invariant under the insertion order at every level** (`ContentEq`: the entry lists are permutations of
+each other, recursively). `wf` = keys unique and derived from the entries, the invariant of every set built through
+quill's API; `write_perm_wf_witness` shows it is needed. -/
+theorem write_perm {a b : Mappings} (ha : wf a = true) (hb : wf b = true) (h : ContentEq a b) : write? a = write? b :=
+  write?_congr ha hb h
+
+/-- the same with the decidable content test the oracle uses -/
+theorem write_perm_dec {a b : Mappings} (ha : wf a = true) (hb : wf b = true) (h : contentEqB a b = true) :
+    write? a = write? b :=
+  write?_congr ha hb (contentEqB_sound h)
+
+/-- special case: any permutation of the class list -/
+theorem write_perm_classes {m : Mappings} {cs : AList JStr Class} (hm : wf m = true)
+    (hcs : wf { m with classes := cs } = true) (h : m.classes.Perm cs) : write? { m with classes := cs } = write? m :=
+  (write?_congr hm hcs (contentEq_of_perm h)).symm
+
+/-- `write` does not distinguish a set from its canonical form (no hypotheses) -/
+theorem write_canon (m : Mappings) : write? (canon m) = write? m := write?_canon m
+
+example : write? exM = write? exM' := write_perm_dec (by decide) (by decide) (by decide)
+
+/-- the sort keys separate the entries of a well-formed level (so the stable sort has exactly one result) -/
+theorem sort_key_separates_classes {m : Mappings} (h : wf m = true) :
+    ∀ p q, p ∈ m.classes.values → q ∈ m.classes.values → classLe p q = true → classLe q p = true → p = q :=
+  wf_classes_inj h
+
+theorem sort_key_separates_fields {c : Class} (h : wfClass c = true) :
+    ∀ p q, p ∈ c.fields.values → q ∈ c.fields.values → fieldLe p q = true → fieldLe q p = true → p = q :=
+  wfClass_fields_inj h
+
+theorem sort_key_separates_methods {c : Class} (h : wfClass c = true) :
+    ∀ p q, p ∈ c.methods.values → q ∈ c.methods.values → methodLe p q = true → methodLe q p = true → p = q :=
+  wfClass_methods_inj h
+
+theorem sort_key_separates_params {m : Method} (h : wfMethod m = true) :
+    ∀ p q, p ∈ m.params.values → q ∈ m.params.values → paramLe p q = true → paramLe q p = true → p = q :=
+  wfMethod_params_inj h
+
+/-- two entries with the same names under different keys (impossible through quill's API, possible through the public
+fields): the comment of whichever was inserted first is written first -/
+def exBadKeys (first second : JStr) : Mappings :=
+  { ns := [[97], [98]], doc := none,
+    classes := [([88], { names := [some [65], none], doc := some first, fields := [], methods := [] }),
+                ([89], { names := [some [65], none], doc := some second, fields := [], methods := [] })] }
+
+/-- without `wf` the text depends on the insertion order -/
+theorem write_perm_wf_witness :
+    (exBadKeys [49] [50]).classes.Perm
+        [([89], { names := [some [65], none], doc := some [50], fields := [], methods := [] }),
+         ([88], { names := [some [65], none], doc := some [49], fields := [], methods := [] })] ∧
+      wf (exBadKeys [49] [50]) = false ∧
+      write? (exBadKeys [49] [50]) ≠ write? { exBadKeys [49] [50] with classes :=
+        [([89], { names := [some [65], none], doc := some [50], fields := [], methods := [] }),
+         ([88], { names := [some [65], none], doc := some [49], fields := [], methods := [] })] } :=
+  ⟨List.Perm.swap _ _ _, by decide, by decide⟩
+
+/-! ## 3. fixed point -/
+
+/-- what comes back on the wider domain `writableE` (comments may contain backslash-`n`): the canonical form of the set
+whose comments went through `unescape ∘ escape` -/
+theorem read_write_escaped {n : Nat} {m : Mappings} (h : writableE n m = true) :
+    read n (write m) = some (canon (reDocM m)) :=
+  read_write_writableE h
+
+/-- **`write (read (write m)) = write m`**, byte for byte, also where the round trip itself fails because of backslash-`n` -/
+theorem write_fixed_point {n : Nat} {m : Mappings} (h : writableE n m = true) :
+    ∃ r, read n (write m) = some r ∧ write? r = write? m ∧ write? m = some (write m) := by
+  refine ⟨canon (reDocM m), read_write_writableE h, ?_, ?_⟩
+  · rw [write?_canon, write?_reDoc]
+  · rw [← write?_reDoc, write_succeeds (writable_reDoc h), write_reDoc]
+
+/-- the domain of the round trip is part of the domain of the fixed point -/
+theorem writable_subdomain {n : Nat} {m : Mappings} (h : writable n m = true) : writableE n m = true :=
+  writableE_of_writable h
+
+/-- on the narrow domain, stated through the canonical form -/
+theorem write_fixed_point_canon {n : Nat} {m : Mappings} (h : writable n m = true) :
+    read n (write m) = some (canon m) ∧ write? (canon m) = some (write m) := by
+  refine ⟨read_write h, ?_⟩
+  rw [write?_canon, write_succeeds h]
+
+example : ∃ r, read 2 (write exBsN) = some r ∧ r ≠ canon exBsN ∧ write? r = write? exBsN := by
+  obtain ⟨r, h1, h2, _⟩ := write_fixed_point (n := 2) (m := exBsN) (by decide)
+  refine ⟨r, h1, ?_, h2⟩
+  intro e
+  rw [e] at h1
+  revert h1
+  decide
+
+/-! ## 4. reading never merges, loses or re-parents -/
+
+/-- **one accepted line, one change**: `TreeStep κ` (file `Lemmas/TinyStep.lean`) lists the only possibilities —
+nothing (`skip`); a fresh class appended under a key not yet present; or a change of the *last* class only: its absent
+comment set, a fresh field / method appended under a new key, or a change of its *last* field (absent comment set) / *last*
+method (absent comment set, fresh parameter appended under a new index, absent comment of its last parameter set). `κ` is
+determined by the line and the kind of the member opened last (`lineKind`). -/
+theorem step_appends {n : Nat} {s s' : St} {l : TLine} (h : step n s l = some s') :
+    TreeStep (lineKind s.kind l) s.classes s'.classes ∧ s'.kind = kindAfter s.kind l :=
+  ⟨(step_treeStep h).1, (step_treeStep h).2.1⟩
+
+/-- **no merge, no loss**: a successful `read` yields exactly one class / field / method / parameter / comment per line
+that `lineKinds` (a function of the text alone) classifies as such -/
+theorem read_counts {n : Nat} {t : List Nat} {m : Mappings} (h : read n t = some m) (κ : LineKind) (hκ : κ ≠ .skip) :
+    countOf κ m.classes = (lineKinds .field (textLines t).tail).count κ := by
+  obtain ⟨hd, ls, s, ht, _, _, _, _, hrun, hc⟩ := read_some h
+  have := run_counts (n := n) κ hκ ls _ s hrun
+  rw [ht, hc, this]
+  cases κ <;> simp [countOf] at hκ ⊢
+
+/-- **no duplicate or misfiled entry**: in the result every key is unique and is the key derived from its entry (first
+name, descriptor / index) -/
+theorem read_wf {n : Nat} {t : List Nat} {m : Mappings} (h : read n t = some m) : wf m = true := by
+  obtain ⟨hd, ls, s, _, _, _, _, _, hrun, hc⟩ := read_some h
+  rw [wf_eq_wfCs, hc]
+  exact run_wf ls _ s hrun rfl
+
+/-- **no re-parenting**: once a class entry is followed by another one it is final — whatever the rest of the text is,
+it stays, unchanged, at its place -/
+theorem read_closed_classes_final {n : Nat} {s s' : St} {ls : List TLine} (h : run n s ls = some s')
+    {closed : AList JStr Class} {last : JStr × Class} (hs : s.classes = closed ++ [last]) :
+    ∃ rest, rest ≠ [] ∧ s'.classes = closed ++ rest :=
+  run_frozen ls s s' h hs
+
+/-- **duplicate keys are errors** (positions `i < j` in the body, `m` the method line for parameters): two class lines with
+the same first name; two field (method) lines of one class with the same descriptor and first name; two parameter lines of
+one method with the same index -/
+theorem read_dup {n : Nat} {t : List Nat} {m i j : Nat} (h : dupAt (textLines t).tail m i j = true) : read n t = none := by
+  cases ht : textLines t with
+  | nil => simp [Tiny.read, ht]
+  | cons hd ls =>
+    rw [ht] at h
+    exact read_none_of_run_none ht (fun s => run_dupAt h)
+
+theorem read_dup_class {n : Nat} {t : List Nat} {hd : TLine} {pre mid post : List TLine} {l1 l2 : TLine}
+    (ht : textLines t = hd :: (pre ++ l1 :: (mid ++ l2 :: post)))
+    (h1 : l1.indent = 0 ∧ l1.first = C_) (h2 : l2.indent = 0 ∧ l2.first = C_)
+    (hk : l1.fields.head? = l2.fields.head?) : read n t = none :=
+  read_none_of_run_none ht (fun _ => run_dup_class h1 h2 hk)
+
+theorem read_dup_field {n : Nat} {t : List Nat} {hd : TLine} {pre mid post : List TLine} {l1 l2 : TLine}
+    (ht : textLines t = hd :: (pre ++ l1 :: (mid ++ l2 :: post)))
+    (h1 : l1.indent = 1 ∧ l1.first = F_) (h2 : l2.indent = 1 ∧ l2.first = F_) (hmid : ∀ l ∈ mid, 1 ≤ l.indent)
+    (hk : l1.fields.take 2 = l2.fields.take 2) : read n t = none :=
+  read_none_of_run_none ht (fun _ => run_dup_field h1 h2 hmid hk)
+
+theorem read_dup_method {n : Nat} {t : List Nat} {hd : TLine} {pre mid post : List TLine} {l1 l2 : TLine}
+    (ht : textLines t = hd :: (pre ++ l1 :: (mid ++ l2 :: post)))
+    (h1 : l1.indent = 1 ∧ l1.first = M_) (h2 : l2.indent = 1 ∧ l2.first = M_) (hmid : ∀ l ∈ mid, 1 ≤ l.indent)
+    (hk : l1.fields.take 2 = l2.fields.take 2) : read n t = none :=
+  read_none_of_run_none ht (fun _ => run_dup_method h1 h2 hmid hk)
+
+theorem read_dup_param {n : Nat} {t : List Nat} {hd : TLine} {pre mid0 mid post : List TLine} {lm l1 l2 : TLine}
+    (ht : textLines t = hd :: (pre ++ lm :: (mid0 ++ l1 :: (mid ++ l2 :: post))))
+    (hm : lm.indent = 1 ∧ lm.first = M_) (hmid0 : ∀ l ∈ mid0, 2 ≤ l.indent)
+    (h1 : l1.indent = 2 ∧ l1.first = P_) (h2 : l2.indent = 2 ∧ l2.first = P_) (hmid : ∀ l ∈ mid, 2 ≤ l.indent)
+    (hk : (l1.fields.head?).bind parseUsize = (l2.fields.head?).bind parseUsize) : read n t = none :=
+  read_none_of_run_none ht (fun _ => run_dup_param hm hmid0 h1 h2 hmid hk)
+
+/-- a line the reader rejects makes the whole `read` fail, whatever follows -/
+theorem read_error_propagates {n : Nat} {s0 s : St} {pre post : List TLine} {l : TLine}
+    (h1 : run n s0 pre = some s) (h2 : step n s l = none) : run n s0 (pre ++ l :: post) = none :=
+  run_none_of_step_none pre s0 s l post h1 h2
+
+/-- `tiny 2 0 a b / c A B / c A C` -/
+example : read 2 [116, 105, 110, 121, 9, 50, 9, 48, 9, 97, 9, 98, 10, 99, 9, 65, 9, 66, 10, 99, 9, 65, 9, 67, 10] = none :=
+  read_dup (m := 0) (i := 0) (j := 1) (by decide)
+
+example : ∃ m, read 2 (write exM) = some m ∧ countOf .par m.classes = 2 ∧ countOf .doc m.classes = 3 := by
+  refine ⟨canon exM, by decide, by decide, by decide⟩
+
+/-! ## 5. what the format cannot express: each condition of `writable` is needed (all replayed against the real code) -/
+
+/-- `escape` is not injective: a line feed and the two characters backslash, `n` are written alike -/
+theorem escape_not_injective_witness : escape [10] = escape [92, 110] ∧ ([10] : JStr) ≠ [92, 110] := by decide
+
+/-- a comment `x\ny` (backslash, `n`) reads back as `x⏎y` -/
+theorem comment_backslash_n_witness :
+    read 2 (write exBsN) = some { exBsN with classes :=
+      [([65], { names := [some [65], some [66]], doc := some [120, 10, 121], fields := [], methods := [] })] } ∧
+    read 2 (write exBsN) ≠ some (canon exBsN) := by decide
+
+/-- the comment of the mapping set itself is written at indentation 1 — where `read` expects indentation 0 -/
+theorem toplevel_doc_witness :
+    write? { exM3 with doc := some [116] } = some (write { exM3 with doc := some [116] }) ∧
+    read 3 (write { exM3 with doc := some [116] }) = none := by decide
+
+def exName (name : JStr) : Mappings :=
+  { ns := [[97], [98]], doc := none,
+    classes := [([65], { names := [some [65], some name], doc := none, fields := [], methods := [] })] }
+
+/-- a TAB in a name: one cell too many, `read` fails -/
+theorem name_tab_witness : namesOk validClass 2 [some [65], some [66, 9, 67]] = false ∧ read 2 (write (exName [66, 9, 67])) = none := by
+  decide
+
+/-- a CR at the end of the last name of a row is dropped silently (`BufRead::lines`) -/
+theorem name_cr_witness : read 2 (write (exName [66, 13])) = some (exName [66]) := by decide
+
+/-- LF and TAB in a name (`B⏎c⇥C⇥D`, a valid `ObjClassName`): the reader sees a second class that was never there -/
+theorem name_lf_witness :
+    read 2 (write (exName [66, 10, 99, 9, 67, 9, 68])) = some { exName [66] with classes :=
+      [([65], { names := [some [65], some [66]], doc := none, fields := [], methods := [] }),
+       ([67], { names := [some [67], some [68]], doc := none, fields := [], methods := [] })] } := by decide
+
+/-- a comment ending in CR loses it; a comment containing TAB cannot be read -/
+theorem doc_cr_tab_witness :
+    read 2 (write { exBsN with classes := [([65], { names := [some [65], some [66]], doc := some [100, 13], fields := [], methods := [] })] })
+      = some { exBsN with classes := [([65], { names := [some [65], some [66]], doc := some [100], fields := [], methods := [] })] } ∧
+    read 2 (write { exBsN with classes := [([65], { names := [some [65], some [66]], doc := some [100, 9, 101], fields := [], methods := [] })] })
+      = none := by decide
+
+/-- the fixed point fails for names with CR or LF: the text written after reading differs from the first text -/
+theorem fixed_point_cr_lf_name_witness :
+    (∃ r, read 2 (write (exName [66, 13])) = some r ∧ write r ≠ write (exName [66, 13])) ∧
+    (∃ r, read 2 (write (exName [66, 10])) = some r ∧ write r ≠ write (exName [66, 10])) :=
+  ⟨⟨exName [66], by decide, by decide⟩, ⟨exName [66], by decide, by decide⟩⟩
+
+def exDesc (desc : JStr) : Mappings :=
+  { ns := [[97], [98]], doc := none,
+    classes := [
+      ([65],
+        { names := [some [65], none], doc := none, methods := [],
+          fields := [(([102], desc), { desc := desc, names := [some [102], none], doc := none })] })] }
+
+/-- a name that is not UTF-8 (lone surrogate U+D800): `write` yields no text (the real code panics); a descriptor with a
+lone surrogate is written with U+FFFD and comes back changed -/
+theorem surrogate_witness :
+    write? (exName [66, 55296]) = none ∧
+    read 2 (write (exDesc [76, 55296, 59])) = some (exDesc [76, 65533, 59]) := by
+  decide
+
+/-- a class without a name in the first namespace cannot be read back -/
+theorem no_source_name_witness :
+    read 2 (write { exBsN with classes := [([65], { names := [none, some [66]], doc := none, fields := [], methods := [] })] }) = none := by
+  decide
 
 end Thm.C03
